@@ -241,3 +241,54 @@ def is_fresh_alloc(body, c):
     if c is None:
         return False
     return callee_str(c).endswith("reclaim::Shared::boxed") or c.resolved in alloc_wrappers(body.facts)
+
+
+# ------------------------------------------------------------------------------------------
+# what a failed CAS hands back, under whatever names a wrapper gives it
+
+def cas_failure_fields(facts):
+    """({(adt, field)} holding the rejected new value, {(adt, field)} holding the value found instead) of a failed compare-exchange:
+    reclaim::CompareExchangeError.{new, current}, plus the fields of any crate struct that is built from them (`CasBinFailure { found:
+    e.current, rejected: e.new }`)"""
+    r = getattr(facts, "_cas_fields", None)
+    if r is not None:
+        return r
+    from .facts import place_fields
+    new, cur = {("reclaim::CompareExchangeError", "new")}, {("reclaim::CompareExchangeError", "current")}
+    changed = True
+    while changed:
+        changed = False
+        for b in facts.bodies:
+            fl = flow(b)
+            for blk in b.blocks:
+                for st in blk["stmts"]:
+                    if st["k"] != "assign" or "agg" not in st["rv"] or "adt" not in st["rv"]["agg"]:
+                        continue
+                    a = st["rv"]["agg"]
+                    if a["adt"].startswith(("std::", "core::", "alloc::")):
+                        continue
+                    for nme, o in zip(a.get("fields", []), st["rv"]["ops"]):
+                        l = op_root(o)
+                        if l is None:
+                            continue
+                        fs = set()
+                        stack, seen = [l], set()
+                        while stack:
+                            x = stack.pop()
+                            if x in seen:
+                                continue
+                            seen.add(x)
+                            for kind, data, pt in fl.sources(x):
+                                if kind == "field":
+                                    fs |= set(place_fields(data))
+                                elif kind == "copy":
+                                    stack.append(data)
+                        pl = o.get("move") or o.get("copy")
+                        if pl:
+                            fs |= set(place_fields(pl))
+                        for tgt, src in ((new, fs & new), (cur, fs & cur)):
+                            if src and (a["adt"], nme) not in tgt:
+                                tgt.add((a["adt"], nme))
+                                changed = True
+    facts._cas_fields = (new, cur)
+    return new, cur
